@@ -221,7 +221,7 @@ fn more_family<
         if mode == Fresh {
             let mut x = inst(
                 format!("help_adv:{}", path),
-                &["C03"],
+                &["C01", "C02", "C03", "C12"],
                 mode,
                 4,
                 "R{load, load} || W{store} interleaved step by step (3 preemptions) + W2{store} as one complete call placed anywhere",
